@@ -119,6 +119,7 @@ theorem jobInv_wf_ret {s s' : State} {a r : Nat} (hw : WfInv s) (h : FullInv s) 
 theorem fullInv_reachable {s : State} (hr : Reachable s) : WfInv s ∧ FullInv s := by
   induction hr with
   | init nq ng max => exact ⟨wfInv_init nq ng max, fullInv_init nq ng max⟩
+  | initP ps ng max => exact ⟨wfInv_initP ps ng max, fullInv_initP ps ng max⟩
   | step l hprev hstep ih =>
     obtain ⟨hw, h⟩ := ih
     have hh := holderInv_reachable hprev
